@@ -248,18 +248,11 @@ KEY_LEGACY = 'C04/stack_files/masked-variable-without-stack-dimension'
 
 
 def classify(case, failure, model_out):
-    if failure.startswith('stack_files mask loss'):
-        return KEY_LEGACY
     return None
 
 
 def witnesses():
-    spec = dict(dims=[['t', 2, False], ['x', 2, False]],
-                vars=[dict(name='A', dims=['t', 'x'], dtype='d', masked=False, attrs=[], data=[1, 2, 3, 4]),
-                      dict(name='M', dims=['x'], dtype='d', masked=True, attrs=['fill_value'], data=[None, 7])],
-                attrs=[])
-    import copy
-    return [(KEY_LEGACY, dict(kind='indep', dim='t', files=[spec, copy.deepcopy(spec)]))]
+    return []
 
 
 def nontrivial(case, res):
